@@ -37,7 +37,11 @@ EXPLANATION = (
     "connected) are evaluated per concrete nreqs, for every size 2..16 and beyond every constant such a distinction mentions. "
     "R-C19-siblings: RoundRobinArbiter and RoundRobinArbiterEn declare the same signals (up to `en`) and compute the same "
     "grants / next pointer for every request vector and every reachable (one-hot) pointer when en=1, and the En variant "
-    "holds the pointer (with unchanged grants) when en=0 (same sizes as R-C19-grant).")
+    "holds the pointer (with unchanged grants) when en=0 (same sizes as R-C19-grant). "
+    "R-C19-sim-options / R-tick-order / R-C07-ffset (necessary conditions outside the two anchored files, shared with C07): "
+    "the priority register only advances / resets if the simulator runs every update_ff block once per edge before the flip, "
+    "re-evaluates the grant logic around it, and sim_reset() drives the polarity the user configured -- every pass group must "
+    "forward its reset_active_high / line-trace option to the same-named option of the pass it builds.")
 ASSUMPTIONS = [
     "pymtl3 Bits semantics for | & ~ != slicing and truthiness (properties C04/C05); update blocks reach their "
     "combinational fixed point (C02/C11); connect() makes both ends equal (C08); <<= takes effect at the clock edge (C07)",
@@ -766,7 +770,84 @@ def rule_siblings(repo):
     return r
 
 
-RULES = [rule_wiring, rule_grant, rule_siblings]
+# ---------------------------------------------------------------------------
+# "reset restores priority to input 0" / "priority advances at the edge": the register only sees what the simulator drives.
+GROUPS = ['pymtl3/passes/PassGroups.py', 'pymtl3/passes/mamba/PassGroups.py']
+
+
+def rule_options(repo):
+    r = RuleResult('R-C19-sim-options', "every simulation pass group hands its own option to the same-named option of the pass it "
+                                        "configures (reset polarity, line trace): sim_reset() then drives the reset level the registers test")
+    for rel in GROUPS:
+        m = repo.mod(rel)
+        for cname, cls in m.classes.items():
+            meths = m.methods(cname)
+            init, call = meths.get('__init__'), meths.get('__call__')
+            if call is None:
+                continue
+            me = call.args.args[0].arg
+            opts = {}          # attribute name -> __init__ parameter it stores
+            if init is not None:
+                ime = init.args.args[0].arg
+                params = {a.arg for a in init.args.args[1:] + init.args.kwonlyargs}
+                for st in ast.walk(init):
+                    if isinstance(st, ast.Assign) and len(st.targets) == 1 and isinstance(st.targets[0], ast.Attribute) \
+                            and norm(st.targets[0].value) == ime:
+                        opts[st.targets[0].attr] = st.value.id if isinstance(st.value, ast.Name) and st.value.id in params else None
+            own = {v for v in opts.values() if v}
+            for c in ast.walk(call):
+                if not (isinstance(c, ast.Call) and isinstance(c.func, ast.Name)):
+                    continue
+                rc = repo.resolve_class(m, c.func)
+                if rc is None:
+                    continue
+                hit = repo.lookup_method(rc[0], rc[1], '__init__')
+                if hit is None:
+                    continue
+                cinit = hit[2]
+                cparams = [a.arg for a in cinit.args.args[1:]] + [a.arg for a in cinit.args.kwonlyargs]
+                given = {}
+                for i, a in enumerate(c.args):
+                    if i < len(cinit.args.args) - 1:
+                        given[cinit.args.args[1 + i].arg] = a
+                for k in c.keywords:
+                    if k.arg:
+                        given[k.arg] = k.value
+                for pn in cparams:
+                    fq = f"{cname}.__call__"
+                    cons = f"{c.func.id}({pn}=...)"
+                    if pn in given:
+                        a = given[pn]
+                        if isinstance(a, ast.Attribute) and norm(a.value) == me and a.attr in opts:
+                            src = opts[a.attr]
+                            if pn in own and src != pn:
+                                r.bad(m, fq, cons, f"`{pn}` of {c.func.id} is fed from the group's option `{src or a.attr}` although the group "
+                                      f"has its own `{pn}` option: the pass runs with the wrong setting (e.g. sim_reset() drives the wrong "
+                                      f"reset level and the registers are never / always reset)", c.lineno)
+                            else:
+                                r.ok(m, fq, cons + f" <- {me}.{a.attr}")
+                        else:
+                            r.ok(m, fq, cons + f" <- {norm(a)}")
+                    elif pn in own:
+                        r.bad(m, fq, cons, f"the group's option `{pn}` is not handed to {c.func.id}, which has an option of that name "
+                              f"(its default is used whatever the user asked for)", c.lineno)
+    r.require_floor(8)
+    return r
+
+
+def rule_clocking(repo):
+    """the priority register is an update_ff block: it advances only if every update_ff block is run once per edge, before
+    the flip, and the grant logic is re-evaluated after it -- shared with C07 (R-tick-order, R-C07-ffset)"""
+    from rules.c07 import rule_tick_order
+    return rule_tick_order(repo)
+
+
+def rule_clocking_ffset(repo):
+    from rules.c07 import rule_ffset
+    return rule_ffset(repo)
+
+
+RULES = [rule_wiring, rule_grant, rule_siblings, rule_options, rule_clocking, rule_clocking_ffset]
 THOROUGH_RULES = [rule_grant_larger]
 
 
@@ -802,6 +883,12 @@ _EN_TAIL = """      s.priority_en @= ( s.grants != 0 ) & s.en
 """
 
 MUTANTS = [
+    _m('group-reset-polarity-from-linetrace', "    HeuristicTopoPass(print_line_trace=s.print_line_trace,\n                      reset_active_high=s.reset_active_high)( top )",
+       "    HeuristicTopoPass(print_line_trace=s.print_line_trace,\n                      reset_active_high=s.print_line_trace)( top )", 'R-C19-sim-options', file=GROUPS[1]),
+    _m('group-reset-polarity-dropped', "    PrepareSimPass(print_line_trace=s.linetrace,\n                   reset_active_high=s.reset_active_high)( top )",
+       "    PrepareSimPass(print_line_trace=s.linetrace)( top )", 'R-C19-sim-options', file=GROUPS[0]),
+    _m('tick-pre-edge-comb-replaced-by-linetrace', "      final_schedule.append( top.print_line_trace )\n    final_schedule += self.collect_ff_funcs( top )\n    final_schedule += top._sched.update_schedule\n    final_schedule.append( top._sim.check_top_level_inports )\n    top.sim_tick = SimpleTickPass",
+       "      final_schedule = [ top.print_line_trace ]\n    final_schedule += self.collect_ff_funcs( top )\n    final_schedule += top._sched.update_schedule\n    final_schedule.append( top._sim.check_top_level_inports )\n    top.sim_tick = SimpleTickPass", 'R-tick-order', file='pymtl3/passes/sim/PrepareSimPass.py'),
     _m('reset-value-zero', "RegEnRst( Type, reset_value = 1 )", "RegEnRst( Type, reset_value = 0 )", 'R-C19-wiring'),
     _m('en-reset-value-two', "RegEnRst( mk_bits( nreqs ), reset_value = 1 )", "RegEnRst( mk_bits( nreqs ), reset_value = 2 )", 'R-C19-wiring'),
     _m('reset-value-msb', "RegEnRst( Type, reset_value = 1 )", "RegEnRst( Type, reset_value = 1 << (nreqs-1) )", 'R-C19'),
